@@ -26,8 +26,8 @@ EXPR_RULE = ("expressions printed from generated trees (type-aware, against a ge
 
 PROPS = {
     "C01": {"families": [("hist", "general", 500), ("hist", "keys", 300)], "obligations": P("Props.C01", "Lemmas.Order", "Lemmas.Search", "Lemmas.Assoc"), "rule": HIST_RULE},
-    "C02": {"families": [("hist", "search", 500), ("hist", "index", 200)], "obligations": P("Props.C02", "Props.C01", "Lemmas.Order", "Lemmas.Search"), "rule": HIST_RULE},
-    "C03": {"families": [("hist", "index", 600)], "obligations": P("Props.C03"), "rule": HIST_RULE},
+    "C02": {"families": [("hist", "search", 500), ("hist", "index", 200)], "obligations": P("Props.C02", "Props.C03Read", "Props.C01", "Lemmas.Order", "Lemmas.Search"), "rule": HIST_RULE},
+    "C03": {"families": [("hist", "index", 600)], "obligations": P("Props.C03", "Props.C03Read"), "rule": HIST_RULE},
     "C04": {"families": [("hist", "search", 600)], "obligations": P("Props.C04Paging", "Props.C04", "Props.C02", "Props.C13", "Lemmas.Order", "Lemmas.Search"), "rule": HIST_RULE},
     "C05": {"families": [("hist", "cond", 600), ("race", None, 1)], "obligations": P("Props.C05") + [(TL, "Minidyn.Tie.wellLocked_generated_v1"), (TL, "Minidyn.Tie.wellLocked_generated_v2")], "rule": HIST_RULE},
     "C06": {"families": [("match", None, 6000)], "obligations": P("Props.C06") + TABLE_TIES + EVAL_TIES, "rule": EXPR_RULE},
